@@ -55,6 +55,7 @@ let parse_case = function
         | L [A "na"] -> na := true
         | L [A "strict"] -> strict := true
         | L [A "twin"] -> twin := true
+        | L [A "cache"; _] -> ()
         | L [A "onpanic"; L ops] -> onp := Some (List.map hop ops)
         | L [A "onerror"; L ops] -> one := Some (List.map hop ops)
         | x -> failwith ("rp: bad option " ^ to_string x)) opts;
@@ -102,10 +103,13 @@ let resolve c (routes : rroute list) m p =
        | al -> RNotAllowed al)
 
 (* returns (reg observation, per-request observations) or None when registration panics *)
+exception Unsupported
 let run_model (c : rpcase) =
   match exec_block c.strict c.stmts rinit with
   | Panic -> None
   | Ok st ->
+    (* route matching proper is the rt executor's business: dynamic patterns are outside this model *)
+    if List.exists (fun r -> List.exists (fun ch -> let x = int_of_n ch in x = 123 || x = 91) r.r_path) st.r_routes then raise Unsupported;
     let reg = L (A "reg" :: List.map (fun r -> L [A "route"; sstr r.r_path; sint (List.length r.r_handlers)]) st.r_routes
                  @ [L [A "scope"; sstr st.g_prefix; sint (List.length st.g_handlers); sint (List.length st.r_globals)]]) in
     let cfg = { globals = List.map (prog_of c) st.r_globals; on_panic = c.onpanic; on_error = c.onerror } in
@@ -132,9 +136,10 @@ let run_model (c : rpcase) =
     Some (reg, L (A "reqs" :: reqs), L (A "fresh" :: fresh), st)
 
 let model c =
-  match run_model (parse_case c) with
+  try match run_model (parse_case c) with
   | None -> L [A "regpanic"]
   | Some (reg, reqs, fresh, _) -> if (parse_case c).twin then L [reg; reqs; fresh] else L [reg; reqs]
+  with Unsupported -> L [A "unsupported"]
 
 (* ---------- spec side ---------- *)
 (* top-level Use statements are global middleware (Use inside a group is group-local) *)
@@ -273,7 +278,7 @@ let c05_judge cs obs =
           if missing <> [] then "bad suspended-handler-did-not-resume ids=" ^ String.concat "," (List.map string_of_int missing)
           else begin
             (* status clause: compare the committed status with the model's *)
-            match run_model c with
+            match (try run_model c with Unsupported -> None) with
             | Some (_, L (A "reqs" :: mr :: _), _, _) ->
               let (mtr, mlg, _) = req_parts mr in
               let wh l = List.filter (function L [A "wh"; _] -> true | _ -> false) l in
